@@ -12,7 +12,7 @@ def register(add):
         bound_note='loop-free after callee replacement (macro loops of RLC_TRY unwound, unwinding assertions discharged)')
     add('cp_bls_ver', ['C05'], 'cp_bls_ver', sources=['src/cp/relic_cp_bls.c'], headers=['cp_bls.h', 'cp_bls_state.h'], conf='base', route='proof', unwind=40,
         decls='ep_st *s; const uint8_t *msg; size_t len; ep2_st *q;', call='cp_bls_ver(s, msg, len, q)', flags=['--object-bits', '10'], timeout=600,
-        replace=[G('ep_map_sswum'), G('ep_copy'), G('ep2_copy'), G('ep2_curve_get_gen'), G('ep2_neg'), G('pp_map_sim_oatep_k12'), G('fp12_cmp_dig'), G('g2_is_valid')],
+        replace=[G('ep_map_sswum'), G('ep_copy'), G('ep2_copy'), G('ep2_curve_get_gen'), G('ep2_neg'), G('pp_map_sim_oatep_k12'), G('fp12_cmp_dig'), G('g2_is_valid'), G('ep2_on_curve'), G('ep2_is_infty'), G('ep_on_curve'), G('ep_is_infty')],
         note='every callee is an ABSTRACT contract (frame + recorded verdict)', bound_note='loop-free after callee replacement')
     add('cp_ecies_dec', ['C08'], 'cp_ecies_dec', sources=['src/cp/relic_cp_ecies.c', 'src/bn/relic_bn_mem.c', 'src/bn/relic_bn_util.c'], headers=['cp_ecies.h', 'cp_ecies_state.h'],
         conf='base', route='proof', unwind=70, flags=['--object-bits', '10'], timeout=900,
